@@ -105,6 +105,10 @@ def gen_case(rng, index, tier):
         for key in ('n', 'npts'):
             if key in prog:
                 prog[key] = min(prog[key], 3)
+        if prog.get('missing', -1) >= prog.get('npts', 0) > 0:
+            prog['missing'] = prog['npts'] - 1
+        if 'nrun' in prog:
+            prog['nrun'] = min(prog['nrun'], prog['n'])
         return case
     if rng.random() < 0.4:
         case['faults'] = gen_faults(rng, nprocs, gran)
